@@ -19,7 +19,7 @@
    not cancel a branch HANDLER) are library/runtime behaviour: exercised by the `driver` engine (real
    Builder/PluginDriver on small duplex pipes, with the real log writer and a node that stops reading) and by the e2e
    engine, not proved. Model/Driver.v is tied to the code through the frames the node reads back, not event by event. *)
-From Tramp Require Import Model.Base Model.Codec Model.Driver Proofs.CodecProofs Proofs.DriverProofs.
+From Tramp Require Import Model.Base Model.Codec Model.Driver Proofs.CodecProofs Proofs.DriverProofs Check.CodecCheck Proofs.CodecCheckProofs.
 From Coq Require Import Permutation.
 
 (* any partition of the stream into read chunks yields the frames of the whole stream: each once, in order,
@@ -70,6 +70,14 @@ Theorem C17_every_request_is_answered : forall (body : msg -> list N) (evs : lis
     quiescent s = true /\ Permutation (d_req s) (replies (d_done s)) /\ Permutation (d_emit s) (logs (d_done s)) /\
     d_req s = d_req (drun body evs dinit).
 Proof. exact driver_can_always_finish. Qed.
+
+(* what the correspondence check of the driver engine compares the real replies with ([run_driver], the machine under the
+   schedule the harness forces: all requests dispatched, handlers released one by one, each reply written before the next
+   release) is exactly the completion order, followed by the handlers the scenario leaves uncontrolled *)
+Theorem C17_forced_schedule_is_completion_order : forall n order,
+  NoDup order -> (forall id, In id order -> id < N.of_nat n) ->
+  run_driver n order = order ++ filter (fun id => negb (existsb (N.eqb id) order)) (map N.of_nat (seq 0 n)).
+Proof. exact run_driver_is_completion_order. Qed.
 
 (* non-vacuity, and why the shape of the select! matters: with the write inside the branch FUTURE (cancellable) the same
    schedule loses the reply to request 1 *)
